@@ -170,10 +170,64 @@ def strip_py(q: T.Term) -> Tuple[T.Term, List[T.Term]]:
 POOL = ["x", "y", "e", "j", "t", "jet", "v", "acc"]
 
 
-def rename(rng, q: T.Term, shadow_p: float = 0.5, pool: Optional[List[str]] = None) -> T.Term:
+GROUP_WEIGHTS = {"namespace": 5.0, "namespace-member": 1.5, "plugin": 2.0, "operator": 1.5, "function": 1.0, "cpp": 1.0, "wire": 1.0, "ordinary": 3.0}
+
+
+def global_groups(names: Dict[str, List[str]]) -> List[Tuple[float, List[str]]]:
+    """Weighted name groups for `rename`: the spellings that mean something to the pipeline as FREE names
+    (gen.global_names) plus the ordinary pool, so that one variant mixes both."""
+    gs = [(GROUP_WEIGHTS.get(k, 1.0), list(v)) for k, v in names.items() if v]
+    return gs + [(GROUP_WEIGHTS["ordinary"], list(POOL))]
+
+
+def local_words(body: T.Term, related: Dict[str, List[str]]) -> List[str]:
+    """Spellings that are 'near' a lambda body: the attribute and function names it uses and, for the declared things
+    among them (plug-in functions, enums), the words of their declaration (argument/result/instance names, members)."""
+    out: List[str] = []
+    for s in T.subterms(body):
+        n = s[1][5:] if s[0] == "n" and s[1].startswith("attr:") else s[1] if s[0] == "v" else None
+        if n is not None:
+            for w in [n] + related.get(n, []):
+                if w not in out:
+                    out.append(w)
+    return out
+
+
+def rename(
+    rng,
+    q: T.Term,
+    shadow_p: float = 0.5,
+    pool: Optional[List[str]] = None,
+    groups: Optional[List[Tuple[float, List[str]]]] = None,
+    related: Optional[Dict[str, List[str]]] = None,
+    local_p: float = 0.3,
+) -> T.Term:
     """A random alpha-variant.  New parameter names are drawn from a small pool and from the names of enclosing
-    binders (shadowing) whenever that cannot capture; falls back to a fresh name."""
+    binders (shadowing) whenever that cannot capture; falls back to a fresh name.  With `groups` (weight, names) the
+    pool is the union of the groups and a name is drawn group first, then within the group; with `related`, a name is
+    drawn with probability `local_p` from the pool names that are near the lambda's own body (`local_words`)."""
+    if groups:
+        pool = [n for _, g in groups for n in g]
+        pool = [n for i, n in enumerate(pool) if n not in pool[:i]]
     pool = pool or POOL
+
+    def pick(cands: List[str], body: Optional[T.Term] = None) -> str:
+        if related is not None and body is not None and rng.random() < local_p:
+            near = [n for n in local_words(body, related) if n in cands]
+            if near:
+                return rng.choice(near)
+        if groups:
+            live = [(w, [n for n in g if n in cands]) for w, g in groups]
+            live = [(w, g) for w, g in live if g]
+            if live:
+                x = rng.random() * sum(w for w, _ in live)
+                for w, g in live:
+                    x -= w
+                    if x <= 0:
+                        return rng.choice(g)
+                return rng.choice(live[-1][1])
+        return rng.choice(cands)
+
     globals_ = set(T.free_vars(q))
     counter = [0]
 
@@ -204,9 +258,9 @@ def rename(rng, q: T.Term, shadow_p: float = 0.5, pool: Optional[List[str]] = No
             if cands and rng.random() < 0.85:
                 if scope and rng.random() < shadow_p:
                     sh = [n for n in scope if n in cands]
-                    n = rng.choice(sh) if sh else rng.choice(cands)
+                    n = rng.choice(sh) if sh else pick(cands, body)
                 else:
-                    n = rng.choice(cands)
+                    n = pick(cands, body)
             else:
                 n = fresh(blocked | set(new) | set(scope))
             new.append(n)
